@@ -480,7 +480,7 @@ int main(int argc, char** argv)
     }
 
     if (mode == "harvest") {
-        // in-region corpus (DESIGN 9.5): cases that lie inside an oracle-side cause region and satisfy the property on this tree.
+        // in-region corpus (DESIGN 9.4): cases that lie inside an oracle-side cause region and satisfy the property on this tree.
         // Output lines: site <TAB> region <TAB> words (decimal, space separated, trailing zeros dropped)
         int cases = std::stoi(arg(a, "--cases", "100000"));
         int nwords = std::stoi(arg(a, "--words", "16"));
